@@ -293,6 +293,10 @@ func (e *Engine) invokeMods(cc *ssa.CallCommon) *ModSet {
 	case strings.HasSuffix(recv, "gopacket.SerializeBuffer"):
 		if name == "PrependBytes" || name == "AppendBytes" || name == "Clear" {
 			m.Alloc = true
+			// the abstract view of the buffer (ghost state of the interface contract) changes
+			for _, k := range []string{"ghost:sbArr", "ghost:sbOff", "ghost:sbLen"} {
+				m.Keys[k] = true
+			}
 		}
 		return m
 	case strings.HasSuffix(recv, "gopacket.DecodeFeedback"), strings.HasSuffix(recv, "gopacket.PacketBuilder"):
